@@ -141,6 +141,11 @@ def _exc_matches(name, handler_type, is_subclass=None):
     return False
 
 
+class Closure(ast.Lambda):
+    """a lambda together with the scope it was written in"""
+    _fields = ast.Lambda._fields
+
+
 class ExternalRef:
     """a function of the outside world held in a variable (`opener = gzip.open`): calls go to the rule's call hook under that name"""
     def __init__(self, name):
@@ -381,7 +386,12 @@ class Evaluator:
         if isinstance(e, ast.Call):
             return self._call(e, env)
         if isinstance(e, ast.Lambda):
-            return e
+            if isinstance(e, Closure):
+                return e
+            c = Closure(args=e.args, body=e.body)
+            ast.copy_location(c, e)
+            c.closure_env = env           # the defining scope, by reference: a lambda stored in a table and applied elsewhere still sees its free variables
+            return c
         if isinstance(e, ast.Starred):
             raise Unfoldable('starred')
         raise Unfoldable(type(e).__name__)
@@ -543,7 +553,7 @@ class Evaluator:
 
             def apply(x):
                 if isinstance(fn_, ast.Lambda):
-                    env2 = dict(env)
+                    env2 = dict(getattr(fn_, 'closure_env', None) or env)
                     env2[fn_.args.args[0].arg] = x
                     return self.ev(fn_.body, env2)
                 return run_function(fn_.fdef, [x], env=fn_.scope, budget=max(0, self.budget))
@@ -568,7 +578,7 @@ class Evaluator:
             return out
         if isinstance(e.func, ast.Lambda) or (isinstance(e.func, ast.Name) and isinstance(env.get(e.func.id), ast.Lambda)):
             lam = e.func if isinstance(e.func, ast.Lambda) else env[e.func.id]
-            env2 = dict(env)
+            env2 = dict(getattr(lam, 'closure_env', None) or env)
             for a_, v_ in zip(lam.args.args, args):
                 env2[a_.arg] = v_
             return self.ev(lam.body, env2)
@@ -578,7 +588,7 @@ class Evaluator:
 
             def keyfn(x, kf=kf):
                 if isinstance(kf, ast.Lambda):
-                    env2 = dict(env)
+                    env2 = dict(getattr(kf, 'closure_env', None) or env)
                     env2[kf.args.args[0].arg] = x
                     return self.ev(kf.body, env2)
                 return run_function(kf.fdef, ([kf.bound] if kf.bound is not None else []) + [x], env=kf.scope, budget=max(0, self.budget), call_hook=self.call_hook)
@@ -631,7 +641,7 @@ class Evaluator:
             if any(isinstance(a, ast.Lambda) for a in list(args) + list(kwargs.values())):
                 def mk(lam):
                     def call(*xs):
-                        env2 = dict(env)
+                        env2 = dict(getattr(lam, 'closure_env', None) or env)
                         for p_, x_ in zip(lam.args.args, xs):
                             env2[p_.arg] = x_
                         return self.ev(lam.body, env2)
